@@ -799,6 +799,12 @@ func init() {
 			u("overlap", "s", "1", "99", "")
 			u("overlap", "s", "50", "50", "")
 			u("overlap", "s", "3", "96", "")
+			for _, t := range []string{"i", "s"} {
+				u("overlap", t, "2", "3", "again")
+				u("overlap", t, "1", "99", "again")
+				u("overlap", t, "99", "2", "again")
+				u("overlap", t, "50", "50", "again")
+			}
 			for _, n := range []int{0, 1, 2, 5, 99, 100, 101} {
 				for _, t := range []string{"i", "s"} {
 					u("in", t, "0", itoa2(n), "")
@@ -824,16 +830,28 @@ func init() {
 			} {
 				units = append(units, Unit{"VerifC17Expr", []string{c[0], c[1]}})
 			}
+			for _, nt := range []string{"prefix", "infix"} {
+				for _, o := range []string{"", "opt"} {
+					for c := 0; c <= 6; c++ {
+						units = append(units, Unit{"VerifC17Literal", []string{nt, "s", itoa2(c), o}})
+					}
+					for c := 0; c <= 2; c++ {
+						units = append(units, Unit{"VerifC17Literal", []string{nt, "i", itoa2(c), o}})
+					}
+				}
+			}
 			return units
 		},
-		Reach: []string{"overlap", "in", "mismatch", "expr"},
+		Reach: []string{"overlap", "in", "mismatch", "expr", "again", "list-literal"},
 		Bounds: func(tier string) map[string]interface{} {
 			return map[string]interface{}{"list_lengths": "overlap: (0,0) (0,2) (2,0) (1,1) (2,3) (3,2) (4,4) and around the 100-element switch (1,99) (99,1) (50,50) (0,100) (100,0) (2,97) (1,98) [+ (98,1) (51,50) (60,40) (40,60) (49,50) (50,49) (3,97) thorough]; in: 0,1,2,5,99,100,101 as list and as pre-built set",
-				"elements": "arbitrary int64 / arbitrary one-byte strings (solver variables), so duplicates and shared/disjoint elements are all covered at each length"}
+				"list_literals": "string list literals with elements of 1 and 2 arbitrary characters (digits included) and integer list literals with arbitrary digits, prefix and infix, with and without optimisations",
+				"elements":      "arbitrary int64 / arbitrary one-byte strings (solver variables), so duplicates and shared/disjoint elements are all covered at each length"}
 		},
 		Rule:       "one unit per (operator, element type, lengths, form); a state is one symbolic path (first-match position in the scan, or probe outcome in the hash path); oracle = the ∃-formula over the elements",
 		TimeoutMs:  60000,
 		Lazy:       true,
+		Eager:      map[string]bool{"VerifC17Literal": true, "VerifC17Expr": true},
 		WallBudget: func(tier string) time.Duration { return 60 * time.Minute },
 	})
 }
